@@ -319,6 +319,23 @@ def r12_subtractions(ctx, reach):
                 op = st["rv"]["op"]
                 if op in ("AddWithOverflow", "Add"):
                     n_arith += 1
+                    # an addition in an 8/16-bit type with an operand taken from input: overflows for the top values of that operand
+                    ty_a = body.lty(st["rv"]["a"]["place"]["local"]).get("s") if st["rv"]["a"]["o"] != "const" else st["rv"]["a"]["c"]["ty"].get("s")
+                    if ty_a in ("u8", "u16", "i8", "i16"):
+                        from engine.anl.casts import range_of as _range_of, int_range as _int_range
+                        o = o or ctx.origins(body)
+                        cfg_, conds_ = ctx.cfg(body), ctx.conds(body)
+                        a_, b_ = o.of_operand(st["rv"]["a"]), o.of_operand(st["rv"]["b"])
+                        ra, rb = _range_of(body, cfg_, conds_, o, a_, bi, []), _range_of(body, cfg_, conds_, o, b_, bi, [])
+                        tr = _int_range(ty_a)
+                        ra = (ra[0], tr[1] if ra[1] is None else min(ra[1], tr[1]))
+                        rb = (rb[0], tr[1] if rb[1] is None else min(rb[1], tr[1]))
+                        n += 1
+                        okadd = ra[1] + rb[1] <= tr[1]
+                        ctx.ob("R20.12", "%s|narrow-add#%d" % (ctx.P.owner(key), n), okadd, "%s:%s" % (st["span"].get("file", "?"), st["span"]["line"]),
+                               "`%s + %s` cannot exceed %s" % (fmt(a_)[:30], fmt(b_)[:30], ty_a) if okadd else
+                               "`%s + %s` is computed in %s with operands up to %s and %s: the top values of the input byte overflow (a panic with overflow checks, a wrapped — too small — length without)"
+                               % (fmt(a_)[:50], fmt(b_)[:30], ty_a, ra[1], rb[1]))
                 if op not in ("SubWithOverflow", "Sub"):
                     continue
                 ty = body.lty(st["rv"]["a"]["place"]["local"]).get("s") if st["rv"]["a"]["o"] != "const" else st["rv"]["a"]["c"]["ty"].get("s")
@@ -573,6 +590,51 @@ def r15_map_index(ctx, reach):
     ctx.ob("R20.15", "input-reachable-set:maps-are-read-with-get", n == 0, "", "no `map[key]` on input-reachable code" if n == 0 else "%d panicking map reads" % n, nontrivial=False)
 
 
+def r16_cursor_loops_advance(ctx, reach):
+    """a loop that runs while a cursor variable is below a bound advances that cursor on every way round: a `continue` ahead of
+    the advance makes the loop spin for ever on the input that takes that branch (the task is pinned at 100 % CPU, the session is
+    neither served nor closed)"""
+    n = 0
+    for key in sorted(reach):
+        body = ctx.P.bodies[key]
+        if key in ctx.P.inlined_away or key.startswith(("util::cert", "util::tls", "anytls_")):
+            continue
+        cfg = conds = o = None
+        seen_heads = set()
+        for c_ in ctx.conds(body).all():
+            t = c_.term
+            if c_.kind != "bool" or not (isinstance(t, tuple) and t and (t[0] == "binop" and t[1] in ("Lt", "Le", "Ne", "Gt", "Ge") or t[0] == "call" and t[1].split("::")[-1] in ("is_empty", "has_remaining", "is_some", "is_none"))):
+                continue
+            cfg = cfg or ctx.cfg(body)
+            if not cfg.in_cycle(c_.block) or c_.block in seen_heads:
+                continue
+            loop = cfg.cycle_blocks(c_.block)
+            if not any(s_ not in loop for s_ in body.succ(c_.block)):
+                continue        # not an exit test of this loop
+            # the cursor: a user variable in the test that is assigned inside the loop
+            cands = []
+            sides = [x for x in ((t[2], t[3]) if t[0] == "binop" else t[3])]
+            sides += [a_ for x in sides if isinstance(x, tuple) and x and x[0] == "call" and x[1].split("::")[-1] in ("len", "remaining") for a_ in x[3]]
+            for side in sides:
+                if isinstance(side, tuple) and side and side[0] == "var" and "." not in str(side[1]):
+                    locs = [side[2]] if len(side) > 2 else [l for l, nm in body.debug.items() if nm == side[1]]
+                    writes = [d for l in locs for d in body.defs().get(l, []) if d[1] in loop and d[0] in ("assign", "call")]
+                    if writes:
+                        cands.append((side, writes))
+            if len(cands) != 1:
+                continue
+            seen_heads.add(c_.block)
+            var, writes = cands[0]
+            n += 1
+            stay = [s_ for s_ in body.succ(c_.block) if s_ in loop]
+            ok, p = cfg.must_pass(stay, [c_.block], via_blocks=[d[1] for d in writes])
+            ctx.ob("R20.16", "%s|cursor-loop#%d:%s" % (ctx.P.owner(key), n, var[1]), ok, "%s:%s" % (body.blocks[c_.block]["tspan"].get("file", "?"), body.blocks[c_.block]["tspan"]["line"]),
+                   "every way round the loop assigns `%s`" % var[1] if ok else
+                   "a path goes round the loop without assigning the cursor `%s` (a `continue` ahead of the advance): on input that takes that path the loop never ends" % var[1],
+                   path=None if ok else render_path(body, p))
+    ctx.ob("R20.16", "input-reachable-set:cursor-loops-advance", True, "", "%d cursor loops examined" % n, nontrivial=False)
+
+
 def r8_inventory(ctx, reach):
     total = 0
     kinds = {}
@@ -612,5 +674,6 @@ def run(ctx):
     r12_subtractions(ctx, reach)
     r13_slice_indices(ctx, reach)
     r15_map_index(ctx, reach)
+    r16_cursor_loops_advance(ctx, reach)
     r14_gauges_released_on_every_exit(ctx)
     r8_inventory(ctx, reach)
